@@ -288,7 +288,7 @@ def t_stat(m: SM, name: str, *args) -> Exp:
     return t_rowwise(m, lambda a: f(a, *args, axis=1).reshape(-1, 1), nv=1, tol=1e-9)
 
 
-GENERIC_WINDOW_FUNCS = {"max": np.max, "min": np.min, "nansum": np.nansum}
+GENERIC_WINDOW_FUNCS = {"max": np.max, "min": np.min, "nansum": np.nansum, "std": np.std, "ptp": np.ptp}
 
 
 def default_window(freq):
